@@ -115,11 +115,11 @@ class Pool(object):
         self.built = 0
 
     def get(self, variant, mood, slot=0):
-        from c12_world import World
+        from c12_world import make_world
         key = (variant, mood, slot)
         w = self.cache.get(key)
         if w is None:
-            w = World(self.logdir, variant, mood)
+            w = make_world(self.logdir, variant, mood)
             self.built += 1
             self.cache[key] = w
             w.pristine = w.snapshot()
@@ -306,6 +306,8 @@ CORPUS = [
     ('supervisor.startProcessGroup', ('g1',)), ('supervisor.stopProcessGroup', ('g1',)), ('supervisor.startProcessGroup', ('g1', False)),
     ('supervisor.startAllProcesses', ()), ('supervisor.stopAllProcesses', ()), ('supervisor.stopAllProcesses', (False,)),
     ('supervisor.signalProcess', ('g2:q1', 'HUP')), ('supervisor.signalProcess', ('g1:*', 'USR1')),
+    ('supervisor.signalProcess', ('g1:p1', 'TERM')), ('supervisor.signalProcess', ('g1:p2', 'HUP')),
+    ('supervisor.signalProcess', ('solo', '2')), ('supervisor.signalProcessGroup', ('g2', 'USR2')),
     ('supervisor.signalProcessGroup', ('g1', 'TERM')), ('supervisor.signalAllProcesses', ('15',)),
     ('supervisor.sendProcessStdin', ('g2:q1', 'x')), ('supervisor.sendProcessStdin', ('g1:p1', u'h\u00e9llo')),
     ('supervisor.sendRemoteCommEvent', ('type', u'd\u00e4ta')),
@@ -426,7 +428,7 @@ def shape_ok(method, sig, params, value):
 
 
 def explore_args(chk, pool, facts, cases, meta, counters):
-    from c12_world import MOODS, VARIANTS
+    from c12_world import MOODS, N_WORLDS
     from supervisor.xmlrpc import Faults
     table = set(v for k, v in vars(Faults).items() if not k.startswith('_'))
     pnames = live_param_names(facts)
@@ -444,7 +446,7 @@ def explore_args(chk, pool, facts, cases, meta, counters):
         names = pnames[method]
         amin, amax = arity[method]
         for moodname, mood in MOODS:
-            for variant in range(len(VARIANTS)):
+            for variant in range(N_WORLDS):
                 tuples = [p for m, p in CORPUS if m == method]
                 for _ in range(per):
                     n = rng.randrange(amin, (amax if amax is not None else amin + 2) + 1)
@@ -544,17 +546,17 @@ def gen_calls(rng, listed):
 
 
 def explore_multicall(chk, logdir, ref, cases, meta, counters):
-    from c12_world import World, MOODS, VARIANTS
+    from c12_world import make_world, MOODS, N_WORLDS
     from supervisor.xmlrpc import Faults
     rng = chk.rng
     runs = 400 if chk.tier == 'quick' else 20000
     n_eval = 0
     for k in range(runs):
-        variant = rng.randrange(len(VARIANTS))
+        variant = rng.randrange(N_WORLDS)
         mood = rng.choice([1, 1, 1, 1, 0, -1])
         calls = gen_calls(rng, None)
         # --- one after another, each as soon as the previous has completed
-        w1 = World(logdir, variant, mood)
+        w1 = make_world(logdir, variant, mood)
         ref[0] = w1
         seq = []
         script = []
@@ -588,7 +590,7 @@ def explore_multicall(chk, logdir, ref, cases, meta, counters):
             script.append((pk, exp))
         snap1 = w1.snapshot()
         # --- the same calls in one system.multicall
-        w2 = World(logdir, variant, mood)
+        w2 = make_world(logdir, variant, mood)
         ref[0] = w2
         structs = []
         for name, params in calls:
@@ -719,7 +721,7 @@ def _run(chk, wd, proved):
                    'process-state layouts x typed argument tuples + wrong arities, each through handler dispatch and full XML path; '
                    'multicall: %d random compositions vs. the same calls issued sequentially; distinct = distinct (answer prefix, '
                    'state-changed) pairs plus distinct (length, polls) multicall shapes'
-                   % (n_split, n_args, 7, n_multi))
+                   % (n_split, n_args, 10, n_multi))
     cov['samples'] = name_meta[5:7] + name_meta[n_split + 10:n_split + 12] + multi_meta[3:5]
     for k, v in sorted(counters.items()):
         chk.dist('outcome:' + k, v)
